@@ -11,7 +11,7 @@ PROPS = {
                               "safeSub_spec", "sub_spec", "add_sub_inverse", "sub_add_inverse", "isAllGTE_spec", "isAllGT_spec", "isAnyGT_spec",
                               "isAnyGTE_spec", "denomsSubsetOf_spec", "isEqual_partial", "isEqual_sound", "newCoins_spec", "newCoins_of_valid")],
         "t1": [
-            {"family": "arith", "model": "arith", "stateless": True, "quick_n": 60000, "thorough_n": 4000000},
+            {"family": "arith", "model": "arith", "stateless": True, "quick_n": 60000, "thorough_n": 16000000},
         ],
         "rule": "operations drawn from a boundary-biased generator (0, +-1, 2^k+-d, 10^k+-d, k*10^18+5*10^17+-1, "
                 "bound-d, random bit lengths, products whose bit lengths add up to the limit in every sign combination); a quarter of the "
@@ -27,8 +27,8 @@ PROPS = {
 }
 
 KV_T1 = [
-    {"family": "kv", "model": "kv", "quick_n": 40000, "thorough_n": 1500000, "corpus": "kv", "reset_token": "new"},
-    {"family": "kv", "model": "kv", "profile": "iavl", "quick_n": 15000, "thorough_n": 500000, "corpus": "kv", "reset_token": "new"},
+    {"family": "kv", "model": "kv", "quick_n": 40000, "thorough_n": 6000000, "corpus": "kv", "reset_token": "new"},
+    {"family": "kv", "model": "kv", "profile": "iavl", "quick_n": 15000, "thorough_n": 2000000, "corpus": "kv", "reset_token": "new"},
 ]
 KV_RULE = ("programs over stacks of real wrappers (cachekv / prefix / gaskv / tracekv, depth <= 7) on a MemDB or IAVL base; keys over "
            "{00,01,ff}^<=3 (+ random bytes) so that keys are prefixes of each other; iterators opened, stepped, written under and resumed; "
@@ -67,7 +67,7 @@ PROPS["C15"] = {
     "trusted": ["tm-db MemDB / tendermint iavl as the base store", "Go's sync.Mutex"],
 }
 
-RM_T1 = [{"family": "rm", "model": "rm", "quick_n": 6000, "thorough_n": 400000, "corpus": "rm", "reset_token": "new"}]
+RM_T1 = [{"family": "rm", "model": "rm", "quick_n": 6000, "thorough_n": 2000000, "corpus": "rm", "reset_token": "new"}]
 RM_RULE = ("histories of set/delete over 1-4 IAVL substores and a transient store on the real rootmulti.Store, with commits, reopenings, "
            "LoadVersion at every kind of version (retained / pruned / future / 0), crash injection after each possible number of batch "
            "writes of a commit followed by reopen and replay, /key queries with and without proofs at every kind of height; pruning "
@@ -86,7 +86,7 @@ for _p, _req in (("C12", ["retained_closed_form", "reopen_latest_content", "comm
         "trusted": ["tendermint/iavl, tm-db, tendermint/crypto/merkle"],
     }
 
-CHAIN_T1 = [{"family": "chain", "model": "chain", "quick_n": 5000, "thorough_n": 300000, "corpus": "chain",
+CHAIN_T1 = [{"family": "chain", "model": "chain", "quick_n": 5000, "thorough_n": 1500000, "corpus": "chain",
              "reset_token": "init", "group_token": "begin"}]
 CHAIN_RULE = ("block histories on the real BaseApp (auth + pos + gov over IAVL/MemDB) driven through InitChain / BeginBlock / DeliverTx / "
               "CheckTx / Simulate / EndBlock / Commit with really signed transactions: state-aware generator (stake, begin-unstake, unjail, "
@@ -101,7 +101,7 @@ CHAIN_ASSUME = ["signatures are ideal (a signature verifies iff made by the veri
                 "Tendermint reports votes only for validators it holds; hostile consensus input (unknown validators, evidence against tombstoned ones) halts BeginBlock by design of the code and is modelled as a halt"]
 CHAIN_TRUSTED = ["go-amino, tendermint/iavl, tm-db (state is decoded with the repo's own codec by the harness)"]
 
-CHAIN_T1_DOWNTIME = {"family": "chain", "model": "chain", "profile": "downtime", "quick_n": 16000, "quick_shards": 4, "thorough_n": 150000,
+CHAIN_T1_DOWNTIME = {"family": "chain", "model": "chain", "profile": "downtime", "quick_n": 16000, "quick_shards": 4, "thorough_n": 500000,
                      "corpus": "none", "reset_token": "init", "group_token": "begin"}
 
 def _chain(pid, req, t3=None):
@@ -130,7 +130,7 @@ PROPS["C20"] = {
     "lean_modules": ["Posmint.Props.C20"], "namespaces": ["Posmint.Props.C20"],
     "required_theorems": ["Posmint.Props.C20." + t for t in ("uvarint_roundtrip", "varint_roundtrip", "lenPrefixed_roundtrip", "intText_roundtrip",
                           "coin_roundtrip", "coins_roundtrip", "powerKey_roundtrip", "powerKey_order", "formatCivil_order", "inclusiveEnd_spec", "hex_roundtrip")],
-    "t1": [{"family": "codec", "model": "codec", "stateless": True, "quick_n": 60000, "thorough_n": 3000000, "corpus": "codec"}],
+    "t1": [{"family": "codec", "model": "codec", "stateless": True, "quick_n": 60000, "thorough_n": 10000000, "corpus": "codec"}],
     "rule": "values and byte strings from boundary-biased generators: uvarints/varints around powers of two and 2^64, Int text of up to 255 bits "
             "and malformed text, Coin/Coins with empty and maximal denominations and truncated encodings, MsgSend with empty / 20-byte / odd-length "
             "addresses, power-index keys over the whole power range with all-0x00/0xFF/random addresses, unstaking time keys around second/day/leap "
@@ -152,9 +152,9 @@ PROPS["C01"] = {
     "required_theorems": ["Posmint.Props.C01." + t for t in ("readonly_step", "interleaved_traffic_state", "interleaved_traffic_outputs",
                           "step_sameButCheckHeader", "restart_irrelevant", "restart_forgotten_at_commit", "canonMap_perm", "appHash_perm",
                           "content_pruning_independent")],
-    "t1": [{"family": "chain", "model": "chain", "profile": "replica", "quick_n": 8000, "quick_shards": 2, "thorough_n": 300000,
+    "t1": [{"family": "chain", "model": "chain", "profile": "replica", "quick_n": 8000, "quick_shards": 2, "thorough_n": 1000000,
             "corpus": "chain-replica", "reset_token": "init", "group_token": "begin"},
-           {"family": "chain", "model": "chain", "profile": "replica-downtime", "quick_n": 3000, "thorough_n": 60000,
+           {"family": "chain", "model": "chain", "profile": "replica-downtime", "quick_n": 3000, "thorough_n": 200000,
             "corpus": "none", "reset_token": "init", "group_token": "begin"}] + RM_T1,
     "t3": ["map_ranges"],
     "rule": "two real application instances fed the same requests: the primary one (also compared with the Lean model after every operation) and "
@@ -180,7 +180,7 @@ PROPS["C19"] = {
                           "verify_msg_unique", "shape_mismatch_rejected", "length_mismatch_rejected", "kstep_refines", "kstep_sorted", "list_exact",
                           "wrong_pass_no_effect", "import_wrong_pass_no_effect", "import_existing_refused", "export_import_roundtrip",
                           "create_then_use", "delete_exact")],
-    "t1": [{"family": "keys", "model": "keys", "quick_n": 4000, "thorough_n": 120000, "corpus": "keys", "reset_token": "kb.new"}],
+    "t1": [{"family": "keys", "model": "keys", "quick_n": 4000, "thorough_n": 400000, "corpus": "keys", "reset_token": "kb.new"}],
     "rule": "two streams on the real crypto package: (1) multisignature verification of random key trees (ed25519 and secp256k1 leaves, nesting to "
             "depth 3, 0..4 components per node) against the genuine positional signature or a damaged one (component dropped, duplicated, swapped, "
             "replaced by a signature of another key / message / garbage / empty bytes, re-nested, signature of an unrelated key tree); each accepted "
